@@ -112,7 +112,7 @@ def run(ctx: Ctx) -> None:
             ev = traces[idx]["ev"][step - 1]
             prev = [e["steps"] for e in traces[idx]["ev"][:step - 1]]
             culprit = "+".join(sorted({s for t in (prev if clause == "OrderIndependent" else [ev["steps"]]) for s in t
-                                       if s in ("close_stdout", "close_fd", "log_disable", "seed", "draw", "mutate_global")})) or "-"
+                                       if s in ("close_stdout", "close_fd", "log_disable", "log_hang", "seed", "draw", "draw_inst", "mutate_global")})) or "-"
             ctx.bad(clause, f"C30/{clause}/{culprit}" + (f"/then-{'+'.join(ev['steps'])}" if clause == "OrderIndependent" else ""),
                     f"history {behs[idx]['tests']} test {step} {ev['steps']}: "
                     f"{ {k: ev[k] for k in ('stdout_same', 'stderr_same', 'fd1_open', 'log_same', 'rng_same')} } "
